@@ -142,6 +142,33 @@ func oracleC14(l *harness.Live) (c14Info, *harness.Failure) {
 			return info, harness.Failf(info.want.String(), got.String(), "name function result differs from the documented value (evaluation %d of the compiled expression)", round)
 		}
 	}
+	if reuseSampled(l) {
+		// the same compiled expression node by node through the document: name(), name(@x),
+		// name(b[1]) are empty at some nodes and not at others
+		nodes := l.Doc.Nodes
+		if len(nodes) > 10 {
+			nodes = nodes[:10]
+		}
+		for _, n := range append(append([]*xdoc.Node{}, nodes...), nodes[0]) {
+			rv, err := xref.Eval(env, l.AST, n)
+			if err != nil {
+				continue
+			}
+			x := *l
+			x.Ctx = n
+			got, f := evalWith(ce, &x)
+			if f != nil {
+				if f == cappedFailure {
+					break
+				}
+				f.Note = "one compiled expression evaluated node by node, at " + n.Desc() + ": " + f.Note
+				return info, f
+			}
+			if want := harness.FromRef(rv); !got.Equal(want) {
+				return info, harness.Failf(want.String(), got.String(), "one compiled expression evaluated node by node: at %s the name function differs from the documented value", n.Desc())
+			}
+		}
+	}
 	if c, ok := l.AST.(*xast.Call); ok {
 		info.labels = append(info.labels, "fn:"+c.Name, fmt.Sprintf("fn-args:%d", len(c.Args)))
 		info.nontrivial = info.want.S != ""
